@@ -158,6 +158,27 @@ def vsrc(v):
     raise TypeError("vsrc: %r" % (v,))
 
 
+def vsrc_big(v):
+    """Like vsrc, but every integer (at any depth of lists) is written as an expression whose result the
+    interpreter holds in big-integer representation although the value is small (`N // 1`, `N + 2^70 - 2^70`):
+    `==`, and therefore literal patterns, must not see the difference.  None where v has no integer in a
+    position this rewriting reaches."""
+    hit = [False]
+
+    def go(x):
+        if isinstance(x, bool) or isinstance(x, (Fn, Stm)):
+            return vsrc(x)
+        if isinstance(x, int):
+            hit[0] = True
+            form = ("(%s // 1)", "(%s + 2^70 - 2^70)", "((%s * 3) /! 3)", "(%s %%%% (10^30))" if x >= 0 else "(%s // 1)")[abs(x) % 4]
+            return form % vsrc(x)
+        if type(x) is list:
+            return "[%s]" % ", ".join(go(y) for y in x)
+        return vsrc(x)
+    out = go(v)
+    return out if hit[0] else None
+
+
 def vcanon(v):
     """normalised canonical form of a model value"""
     if isinstance(v, Opaque):
@@ -1227,6 +1248,8 @@ def render_case(r, ctx, pats, v, bare=None):
     if ctx == "lambdaN" and isinstance(v, Stm) and v.elems is None:
         return None                           # spreading an infinite stream into a call never returns
     vs = vsrc(v)
+    if r.random() < 0.2:
+        vs = vsrc_big(v) or vs
     p = pats[0]
     guarded = any(has_kind(q, {"or"}) for q in pats)
     names = names_of(p)
